@@ -757,7 +757,8 @@ impl Property for C15 {
                 match catch(|| (sp.mapped_value(&Number::F64(*x)), sp.mapped_value(&Number::Dual(Dual::new(*x, vec!["x".to_string()]))), sp.mapped_value(&Number::Dual2(Dual2::new(*x, vec!["x".to_string()]))))) {
                     Ok((Ok(Number::F64(a)), Ok(Number::Dual(b)), Ok(Number::Dual2(d)))) => {
                         let direct = sp.ppdnev_single(x, 0).unwrap_or(f64::NAN);
-                        if a.to_bits() != direct.to_bits() || b.real().to_bits() != direct.to_bits() || d.real().to_bits() != direct.to_bits() {
+                        // (the dual paths may return +0 where the float path returns -0: equal as numbers)
+                        if a.to_bits() != direct.to_bits() || !(b.real() == direct || (b.real().is_nan() && direct.is_nan())) || !(d.real() == direct || (d.real().is_nan() && direct.is_nan())) {
                             v.fail("mapped_value differs from direct evaluation", format!("float spline at {:?}: {:e} {:e} {:e} vs {:e}", x, a, b.real(), d.real(), direct));
                             return v;
                         }
